@@ -4,6 +4,7 @@ def b_Polygon_create_polygon_node : CR.SrcW.Builder where
   kind := .node
   tag := "polygon"
   xsd := "polygon"
+  path := []
   parent := ""
   attrs := []
   gattrs := []
